@@ -14,8 +14,8 @@ HASHER = re.compile(r"^(KSI_DataHasher_(add|reset|open|close|addImprint|addOctet
 
 
 def run(prog, chk):
-    chain_list_table(prog, chk)
-    remembered_root_rule(prog, chk)
+    chk.defer(chain_list_table, prog, chk)
+    chk.defer(remembered_root_rule, prog, chk)
     chk.explanation = (
         "hashchain.c: (R3a) no error status stored into the status variable is overwritten before it can be observed; (R6) aggregateChain is evaluated abstractly for one link with every combination "
         "of link direction x calendar/aggregation x in-range / out-of-range level correction and start level: hashing order "
@@ -346,9 +346,43 @@ def remembered_root_rule(prog, chk):
     if set(deps) != {"KSI_AggregationHashChain", "KSI_CalendarHashChain"} or any(len(v) < 2 for v in deps.values()) or len(deps["KSI_AggregationHashChain"]) < 3:
         raise AnalysisBroken("remembered output hash: the objects / fields it is computed from were not recognised: %s" % deps)
     chk.extra["remembered_root_inputs"] = {k: sorted(v) for k, v in deps.items()}
+    # functions that drop / replace the remembered hash of the object given as parameter k (directly, or by handing it on)
+    droppers = {}
+    changed = True
+    while changed:
+        changed = False
+        for g in prog.all_functions():
+            for k, par in enumerate(g.params):
+                rec = (par.get("t") or "").replace("*", "").replace("const", "").strip()
+                if rec not in deps or (g.name, k) in droppers:
+                    continue
+                hit = False
+                for b, i, m in g.nodes():
+                    if m.get("k") == "asg":
+                        l = strip(m["l"])
+                        if l.get("k") == "mem" and l.get("f") == "outputHash" and strip(l["b"]).get("k") == "var" and strip(l["b"]).get("n") == par["n"]:
+                            hit = True
+                    elif m.get("k") == "call":
+                        for j, a in enumerate(m["a"]):
+                            a0 = g.resolve(strip(a))
+                            if isinstance(a0, dict) and a0.get("k") == "var" and a0.get("n") == par["n"] and (m.get("fn"), j) in droppers:
+                                hit = True
+                if hit:
+                    droppers[(g.name, k)] = True
+                    changed = True
     n = 0
     for fn in sorted(prog.all_functions(), key=lambda f: (f.unit, f.line)):
         stores, drops, fresh = [], set(), set()
+        for b, i, c in fn.calls():
+            for j, a in enumerate(c["a"]):
+                a0 = fn.resolve(strip(a))
+                # the object handed to a function that drops its remembered hash, or the field itself handed out by address
+                if isinstance(a0, dict) and a0.get("k") == "var" and (c.get("fn"), j) in droppers:
+                    drops.add(a0["n"])
+                if isinstance(a0, dict) and a0.get("k") == "un" and a0.get("op") == "&":
+                    x = strip(a0["e"])
+                    if x.get("k") == "mem" and x.get("f") == "outputHash" and strip(x["b"]).get("k") == "var":
+                        drops.add(strip(x["b"])["n"])
         for b, i, c in fn.calls():
             # objects made in this function have nothing remembered yet
             if (c.get("fn") or "").endswith("_new") or c.get("fn") in ("KSI_malloc", "KSI_calloc"):
